@@ -116,19 +116,136 @@ Theorem C03_write_pieces_fixed_writer :
 Proof. exact write_history_fixed_writer. Qed.
 Print Assumptions C03_write_pieces_fixed_writer.
 
-(* ---- T3: reading back.  The reference reader returns the table from its canonical serialisation:
-   delimited formats with text / int / int-list columns (no TAB or LF inside a text cell) and FASTQ ---- *)
+(* ---- T3: reading back.  The reference reader (parameterised by how float text is read: [pf]) returns the table
+   from its canonical serialisation ---- *)
+(* delimited formats: typed cells (text without TAB/LF, int, int list, float under pf), optionally followed by a
+   rest-of-line text column that may contain TABs (SAM optional tags) *)
 Theorem C03_parse_serialise_delim :
+  forall (pf : list Z -> option (Z * Z)) (schema : list Z) (rows : list row),
+    Forall (row_ok pf schema) rows -> parse_raw_with pf Delim schema (serialise Delim rows) = Some rows.
+Proof. exact parse_serialise_delim_rows. Qed.
+Print Assumptions C03_parse_serialise_delim.
+(* the instance the correspondence uses, with the reader's rule on identifier columns *)
+Theorem C03_parse_file_serialise_delim :
   forall (schema : list Z) (rows : list row),
-    schema <> [] -> Forall (Forall2 cell_ok schema) rows -> id_cols_ok schema rows = true ->
+    Forall (row_ok no_float_value schema) rows -> id_cols_ok schema rows = true ->
     parse_file Delim schema (serialise Delim rows) = Some rows.
 Proof. exact parse_file_serialise_delim. Qed.
-Print Assumptions C03_parse_serialise_delim.
+Print Assumptions C03_parse_file_serialise_delim.
+(* SAM, no optional tags: the eager writer's 12-column line (trailing TAB) is the canonical spelling of the Spec;
+   the SAM-standard spelling without the trailing TAB (written by the lazy path since /repo 36989fd) reads back as
+   the same row *)
+Theorem C03_sam_empty_tags_spellings :
+  forall (pf : list Z -> option (Z * Z)) (ks : list Z) (fs : row), ks <> [] -> Forall2 (cell_ok pf) ks fs ->
+    parse_line_with pf (ks ++ [5]) (line_of fs) = Some (fs ++ [FS []])
+    /\ parse_line_with pf (ks ++ [5]) (line_of (fs ++ [FS []])) = Some (fs ++ [FS []]).
+Proof. exact parse_line_empty_rest_spellings. Qed.
+Print Assumptions C03_sam_empty_tags_spellings.
+(* ... and so does a whole file in the SAM-standard spelling (TAB before the tags only when there are tags) *)
+Theorem C03_parse_sam_standard_spelling :
+  forall (pf : list Z -> option (Z * Z)) (ks : list Z) (recs : list (row * list Z)),
+    ks <> [] -> Forall (fun p => Forall2 (cell_ok pf) ks (fst p) /\ ~ In 10 (snd p)) recs ->
+    parse_raw_with pf Delim (ks ++ [5]) (List.concat (map (fun p => sam_std_line (fst p) (snd p) ++ [10]) recs))
+    = Some (map (fun p => fst p ++ [FS (snd p)]) recs).
+Proof. exact parse_sam_std. Qed.
+Print Assumptions C03_parse_sam_standard_spelling.
+(* float columns: for ANY printer pr and reader pf of float text such that pf inverts pr (round-trip hypothesis,
+   A-FLOAT: Python str(float) / the library's str_to_float) and pr emits no TAB/LF, tables whose float cells carry
+   pr's text are read back unchanged *)
+Theorem C03_parse_serialise_floats :
+  forall (pr : Z -> Z -> list Z) (pf : list Z -> option (Z * Z)),
+    (forall n d, pf (pr n d) = Some (n, d)) ->
+    (forall n d, ~ In 9 (pr n d) /\ ~ In 10 (pr n d)) ->
+    forall (schema : list Z) (rows : list row), schema <> [] ->
+      Forall (Forall2 (cell_ok_printer pr pf) schema) rows ->
+      parse_raw_with pf Delim schema (serialise Delim rows) = Some rows.
+Proof. exact parse_serialise_floats. Qed.
+Print Assumptions C03_parse_serialise_floats.
+(* VCF: '#' header lines are skipped and POS, written +1, is read back -1 *)
+Theorem C03_parse_serialise_vcf :
+  forall (pf : list Z -> option (Z * Z)) (schema : list Z) (hls : list (list Z)) (rows : list row),
+    Forall header_line_ok hls -> Forall (vcf_row_ok pf schema) rows ->
+    parse_raw_with pf Vcf schema (header_of hls ++ serialise Vcf rows) = Some rows.
+Proof. exact parse_serialise_vcf. Qed.
+Print Assumptions C03_parse_serialise_vcf.
+(* FASTA: every width, wrapped sequences are glued back; empty sequences included (reader as repaired in /repo) *)
+Theorem C03_parse_serialise_fasta :
+  forall (w : Z) (schema : list Z) (rows : list row), 1 <= w -> Forall fasta_row_ok rows ->
+    parse_raw (Fasta w) schema (serialise (Fasta w) rows) = Some rows.
+Proof. exact parse_serialise_fasta. Qed.
+Print Assumptions C03_parse_serialise_fasta.
 Theorem C03_parse_serialise_fastq :
   forall (schema : list Z) (rows : list row), Forall fastq_row_ok rows ->
     parse_raw Fastq schema (serialise Fastq rows) = Some rows.
 Proof. exact parse_serialise_fastq. Qed.
 Print Assumptions C03_parse_serialise_fastq.
+
+(* ---- the writer at /repo HEAD, per format: pieces = whole, header exactly once (VCF), no guard ---- *)
+Theorem C03_write_pieces_head :
+  forall (f : fmt) (header : list Z) (gz : bool) (h : list session),
+    hist_ok f h -> tail_appends h -> (header = [] \/ has_header f = true) ->
+    run_hist f header gz h = (0, spec_file f header h).
+Proof. exact write_history_head. Qed.
+Print Assumptions C03_write_pieces_head.
+Theorem C03_write_pieces_vcf :
+  forall (hls : list (list Z)) (gz : bool) (h : list session), hist_ok Vcf h -> tail_appends h ->
+    run_hist Vcf (header_of hls) gz h = (0, spec_header (header_of hls) h ++ serialise Vcf (rows_of_hist h)).
+Proof. exact write_pieces_vcf. Qed.
+Print Assumptions C03_write_pieces_vcf.
+(* BED3/6/12, BedGraph, NarrowPeak, GTF, SAM written from memory carry no header: the file is the rows *)
+Theorem C03_write_pieces_delim :
+  forall (gz : bool) (h : list session), hist_ok Delim h -> tail_appends h ->
+    run_hist Delim [] gz h = (0, serialise Delim (rows_of_hist h)).
+Proof. exact write_pieces_delim. Qed.
+Print Assumptions C03_write_pieces_delim.
+Theorem C03_write_pieces_fasta :
+  forall (w : Z) (gz : bool) (h : list session), hist_ok (Fasta w) h -> tail_appends h ->
+    run_hist (Fasta w) [] gz h = (0, serialise (Fasta w) (rows_of_hist h)).
+Proof. exact write_pieces_fasta. Qed.
+Print Assumptions C03_write_pieces_fasta.
+Theorem C03_write_pieces_fastq :
+  forall (gz : bool) (h : list session), hist_ok Fastq h -> tail_appends h ->
+    run_hist Fastq [] gz h = (0, serialise Fastq (rows_of_hist h)).
+Proof. exact write_pieces_fastq. Qed.
+Print Assumptions C03_write_pieces_fastq.
+
+(* ---- write then read returns the same table: the reader on what the writer produced, any history ---- *)
+Theorem C03_roundtrip_delim :
+  forall pf (schema : list Z) (gz : bool) (h : list session),
+    hist_ok Delim h -> tail_appends h -> Forall (row_ok pf schema) (rows_of_hist h) ->
+    parse_raw_with pf Delim schema (snd (run_hist Delim [] gz h)) = Some (rows_of_hist h).
+Proof. exact roundtrip_delim. Qed.
+Print Assumptions C03_roundtrip_delim.
+Theorem C03_roundtrip_vcf :
+  forall pf (schema : list Z) (hls : list (list Z)) (gz : bool) (h : list session),
+    hist_ok Vcf h -> tail_appends h -> Forall header_line_ok hls -> Forall (vcf_row_ok pf schema) (rows_of_hist h) ->
+    parse_raw_with pf Vcf schema (snd (run_hist Vcf (header_of hls) gz h)) = Some (rows_of_hist h).
+Proof. exact roundtrip_vcf. Qed.
+Print Assumptions C03_roundtrip_vcf.
+Theorem C03_roundtrip_fasta :
+  forall (w : Z) (schema : list Z) (gz : bool) (h : list session),
+    1 <= w -> hist_ok (Fasta w) h -> tail_appends h -> Forall fasta_row_ok (rows_of_hist h) ->
+    parse_raw (Fasta w) schema (snd (run_hist (Fasta w) [] gz h)) = Some (rows_of_hist h).
+Proof. exact roundtrip_fasta. Qed.
+Print Assumptions C03_roundtrip_fasta.
+Theorem C03_roundtrip_fastq :
+  forall (schema : list Z) (gz : bool) (h : list session),
+    hist_ok Fastq h -> tail_appends h -> Forall fastq_row_ok (rows_of_hist h) ->
+    parse_raw Fastq schema (snd (run_hist Fastq [] gz h)) = Some (rows_of_hist h).
+Proof. exact roundtrip_fastq. Qed.
+Print Assumptions C03_roundtrip_fastq.
+
+(* ---- VCF POS: the eager path (from_data) and the lazy path with a replaced POS column (process_field_for_write)
+   write the same, canonical, bytes; the +1 of both is tied to the source by C03_source_tie ---- *)
+Theorem C03_vcf_pos_paths_agree :
+  (forall rows, from_data_lazy_pos rows = snd (from_data Vcf rows))
+  /\ (forall rows, rows <> [] -> table_ok Vcf rows -> from_data_lazy_pos rows = serialise Vcf rows)
+  /\ (forall p, gen_vcf_pos_eager p = gen_vcf_pos_lazy p /\ gen_vcf_pos_eager p = p + 1).
+Proof.
+  exact (conj vcf_pos_paths_agree (conj vcf_lazy_pos_canonical
+         (fun p => conj (eq_trans (b_vcf_pos_eager p) (eq_sym (b_vcf_pos_lazy p))) (b_vcf_pos_eager p)))).
+Qed.
+Print Assumptions C03_vcf_pos_paths_agree.
 
 (* ---- model agrees => property holds (byte half of spec_ok) ---- *)
 Theorem C03_model_ok_written :
@@ -140,6 +257,52 @@ Theorem C03_model_ok_written :
     k_err c = 0 /\ k_written c = spec_file (k_fmt c) (k_header c) (k_hist c).
 Proof. exact model_ok_written. Qed.
 Print Assumptions C03_model_ok_written.
+
+(* the whole property on a case: agreement with the model implies spec_ok (bytes canonical, nothing raised, the
+   table read back equal) whenever the reference reader returns the table from the canonical file — which the
+   read-back theorems give per format (instances below; float-free tables, floats are compared to printing
+   precision by spec_ok itself) *)
+Theorem C03_model_ok_spec_ok :
+  forall c : case,
+    hist_ok (k_fmt c) (k_hist c) -> tail_appends (k_hist c) ->
+    (k_header c = [] \/ has_header (k_fmt c) = true) ->
+    parse_file (k_fmt c) (k_schema c) (spec_file (k_fmt c) (k_header c) (k_hist c)) = Some (rows_of_hist (k_hist c)) ->
+    (k_alt_file c = [] \/ parse_file (k_fmt c) (k_schema c) (k_alt_file c) = Some (rows_of_hist (k_hist c))) ->
+    forallb float_free_row (rows_of_hist (k_hist c)) = true ->
+    model_ok c = true -> spec_ok c = true.
+Proof. exact model_ok_spec_ok. Qed.
+Print Assumptions C03_model_ok_spec_ok.
+Theorem C03_model_ok_spec_ok_delim :
+  forall c : case,
+    k_fmt c = Delim -> k_header c = [] -> k_alt_file c = [] -> hist_ok Delim (k_hist c) -> tail_appends (k_hist c) ->
+    Forall (row_ok no_float_value (k_schema c)) (rows_of_hist (k_hist c)) ->
+    id_cols_ok (k_schema c) (rows_of_hist (k_hist c)) = true ->
+    forallb float_free_row (rows_of_hist (k_hist c)) = true ->
+    model_ok c = true -> spec_ok c = true.
+Proof. exact model_ok_spec_ok_delim. Qed.
+Print Assumptions C03_model_ok_spec_ok_delim.
+Theorem C03_model_ok_spec_ok_vcf :
+  forall (c : case) (hls : list (list Z)),
+    k_fmt c = Vcf -> k_header c = header_of hls -> k_alt_file c = [] -> Forall header_line_ok hls ->
+    hist_ok Vcf (k_hist c) -> tail_appends (k_hist c) ->
+    Forall (vcf_row_ok no_float_value (k_schema c)) (rows_of_hist (k_hist c)) ->
+    id_cols_ok (k_schema c) (rows_of_hist (k_hist c)) = true ->
+    forallb float_free_row (rows_of_hist (k_hist c)) = true ->
+    model_ok c = true -> spec_ok c = true.
+Proof. exact model_ok_spec_ok_vcf. Qed.
+Print Assumptions C03_model_ok_spec_ok_vcf.
+Theorem C03_model_ok_spec_ok_fasta :
+  forall (c : case) (w : Z),
+    k_fmt c = Fasta w -> k_header c = [] -> k_alt_file c = [] -> 1 <= w -> hist_ok (Fasta w) (k_hist c) -> tail_appends (k_hist c) ->
+    Forall fasta_row_ok (rows_of_hist (k_hist c)) -> model_ok c = true -> spec_ok c = true.
+Proof. exact model_ok_spec_ok_fasta. Qed.
+Print Assumptions C03_model_ok_spec_ok_fasta.
+Theorem C03_model_ok_spec_ok_fastq :
+  forall c : case,
+    k_fmt c = Fastq -> k_header c = [] -> k_alt_file c = [] -> hist_ok Fastq (k_hist c) -> tail_appends (k_hist c) ->
+    Forall fastq_row_ok (rows_of_hist (k_hist c)) -> model_ok c = true -> spec_ok c = true.
+Proof. exact model_ok_spec_ok_fastq. Qed.
+Print Assumptions C03_model_ok_spec_ok_fastq.
 
 (* ---- Source tie: the formulas, constants, strides and conditions regenerated from /repo on this run (Gen/C03.v,
    written by translate/run.py through translate/gen_c03.py) are the ones the model — and therefore every theorem
@@ -225,3 +388,59 @@ Proof.
   | _ => progress cbn [s_calls c_chunks]
   end.
 Qed.
+
+(* non-vacuity of the phase-3 hypotheses *)
+(* a SAM-like row: typed cells, then a tags column containing TABs — and the same record without tags in both spellings *)
+Definition ex_sam_schema : list Z := [6; 1; 0; 5].
+Definition ex_sam_row : row := [FS (unhex "7231"); FI 99; FS (unhex "2a"); FS (unhex "4e4d3a693a3109585309413a2b")].
+Example C03_nonvacuous_sam :
+  row_ok no_float_value ex_sam_schema ex_sam_row
+  /\ parse_raw Delim ex_sam_schema (serialise Delim [ex_sam_row; ex_sam_row]) = Some [ex_sam_row; ex_sam_row]
+  /\ parse_line ex_sam_schema (unhex "7231093939092a") = Some [FS (unhex "7231"); FI 99; FS (unhex "2a"); FS []]
+  /\ parse_line ex_sam_schema (unhex "7231093939092a09") = Some [FS (unhex "7231"); FI 99; FS (unhex "2a"); FS []].
+Proof.
+  split; [|vm_compute; repeat split; reflexivity].
+  right. exists [6; 1; 0], [FS (unhex "7231"); FI 99; FS (unhex "2a")], (unhex "4e4d3a693a3109585309413a2b").
+  repeat split; try reflexivity.
+  - repeat constructor; cbn; intuition discriminate.
+  - vm_compute. intuition discriminate.
+Qed.
+(* a VCF file with a two-line header, written in two pieces, read back 0-based *)
+Definition ex_vcf_row1 : row := [FS [99; 104; 114; 49]; FI 0; FS [46]; FS [65]].
+Definition ex_vcf_row2 : row := [FS [99]; FI 999999999999999; FS [114; 115; 49]; FS [84; 44; 71]].
+Definition ex_vcf_hist : list session :=
+  [ {| s_append := false; s_calls := [ {| c_stream := true; c_chunks := [[]; [ex_vcf_row1]] |};
+                                       {| c_stream := false; c_chunks := [[ex_vcf_row2]] |} ] |} ].
+Example C03_nonvacuous_vcf :
+  let hls := [unhex "2323666f726d6174"; unhex "234348524f4d09504f53"] in
+  Forall header_line_ok hls
+  /\ Forall (vcf_row_ok no_float_value [6; 1; 0; 0]) (rows_of_hist ex_vcf_hist)
+  /\ parse_raw Vcf [6; 1; 0; 0] (snd (run_hist Vcf (header_of hls) true ex_vcf_hist)) = Some [ex_vcf_row1; ex_vcf_row2].
+Proof.
+  cbv zeta. split; [|split]; [| |vm_compute; reflexivity].
+  - repeat constructor; vm_compute; intuition discriminate.
+  - assert (R : forall c s p a b, c <> 35 -> ~ In 9 (c :: s) -> ~ In 10 (c :: s) -> ~ In 9 a -> ~ In 10 a ->
+                  ~ In 9 b -> ~ In 10 b ->
+                  vcf_row_ok no_float_value [6; 1; 0; 0] [FS (c :: s); FI p; FS a; FS b]).
+    { intros c s p a b Hc H1 H2 H3 H4 H5 H6. split; [discriminate|]. split.
+      - constructor; [cbn; auto|]. constructor; [reflexivity|]. constructor; [cbn; auto|]. constructor; [cbn; auto|constructor].
+      - exists c, s, [FI p; FS a; FS b]. split; [reflexivity|exact Hc]. }
+    change (rows_of_hist ex_vcf_hist) with [ex_vcf_row1; ex_vcf_row2].
+    constructor; [|constructor; [|constructor]]; apply R; cbn; intuition discriminate.
+Qed.
+(* FASTA with an empty sequence between two wrapped ones *)
+Example C03_nonvacuous_fasta_readback :
+  let rows := [[FS [97]; FS (unhex "41434754414347")]; [FS [98]; FS []]; [FS [99; 32; 100]; FS (unhex "414347")]] in
+  Forall fasta_row_ok rows
+  /\ parse_raw (Fasta 3) [] (serialise (Fasta 3) rows) = Some rows.
+Proof.
+  cbv zeta. split; [|vm_compute; reflexivity].
+  repeat constructor; eexists; eexists; (split; [reflexivity|]); vm_compute; intuition discriminate.
+Qed.
+(* the float hypothesis is satisfiable: an exact printer/reader pair, and a table with a float column *)
+Example C03_nonvacuous_floats :
+  (forall n d, ratio_read (ratio_print n d) = Some (n, d))
+  /\ (forall n d, ~ In 9 (ratio_print n d) /\ ~ In 10 (ratio_print n d))
+  /\ let rows := [[FS [99]; FI 5; FF (ratio_print 1 2) 1 2]; [FS [100]; FI (-7); FF (ratio_print (-25) 1000) (-25) 1000]] in
+     parse_raw_with ratio_read Delim [6; 1; 3] (serialise Delim rows) = Some rows.
+Proof. split; [exact ratio_roundtrip|]. split; [exact ratio_no_sep|]. vm_compute. reflexivity. Qed.
